@@ -439,8 +439,18 @@ pub fn run_path(cfg: &Cfg, path: &PathRec<Post>, record: bool) -> (PathResult, V
                                 g = cv.wait_timeout(g, Duration::from_millis(50)).unwrap().0;
                             }
                         }
-                        let taker = std::thread::spawn(move || Client::take(c));
-                        std::thread::sleep(Duration::from_millis(3));
+                        let started = std::sync::Arc::new(std::sync::atomic::AtomicBool::new(false));
+                        let st2 = started.clone();
+                        let taker = std::thread::spawn(move || {
+                            st2.store(true, std::sync::atomic::Ordering::SeqCst);
+                            Client::take(c)
+                        });
+                        let t0 = Instant::now();
+                        while !started.load(std::sync::atomic::Ordering::SeqCst) && t0.elapsed() < Duration::from_secs(2) {
+                            std::thread::yield_now();
+                        }
+                        // (the taker is now a few instructions away from the registry's lock)
+                        std::thread::sleep(Duration::from_millis(8));
                         {
                             let (m, cv) = &*gate;
                             m.lock().unwrap().1 = true;
